@@ -104,6 +104,13 @@ def scen_answer():
             out.append('answer_challenge, verdict %r: %s (expected %s)' % (verdict, got, want))
         if c.sent != [hmac.new(key, b'm' * 20, 'md5').digest()]:
             out.append('answer_challenge answered %r' % (c.sent,))
+    # challenges whose first bytes occur in the CHALLENGE marker itself (any byte value may come out of os.urandom)
+    for lead in (b'#', b'C', b'NE', b'#CHALLENGE#', b'E' * 20):
+        m = (lead + b'z' * 20)[:20]
+        c = Script([C.CHALLENGE + m, C.WELCOME])
+        got = outcome(C.answer_challenge, c, key)
+        if got != 'ok' or c.sent != [hmac.new(key, m, 'md5').digest()]:
+            out.append('answer_challenge, challenge %r: %s, answered with the digest of something else' % (m, got))
     c = Script([b'#CHALLENGX#' + b'm' * 20, C.WELCOME])
     if outcome(C.answer_challenge, c, key) != 'AssertionError' or c.sent:
         out.append('answer_challenge accepted a message that is not a challenge (sent %r)' % (c.sent,))
